@@ -6,7 +6,8 @@
 //!
 //! usage: verif-harness client [--decode min|max]
 //!
-//! input line:  cap=<n> handles=<n> mt=<n|0> rmin=<ns> rmax=<ns> [rtu=1] | <step> <step> ...
+//! input line:  cap=<n> handles=<n> mt=<n|0> rmin=<ns> rmax=<ns> [rtu=1] [tx0=<n>] | <step> <step> ...
+//!   tx0=<n>: the first request carries transaction id n (ClientSession::set_next_tx_id)
 //!   rtu=1: the ClientLoop runs with FrameWriter::rtu + the RTU response parser (frames carry no transaction id:
 //!   the <tx> of F / P steps is ignored, wire entries read w-:<id>)
 //!   S:<id>:<r|u>:<timeout_ns>:<f|c|x>   submit request <id> (r = read holding register, u = a request that
@@ -304,7 +305,10 @@ async fn run_case(line: &str, initial: DecodeLevel) -> String {
     ctl.lock().unwrap().t0 = Some(tokio::time::Instant::now());
     let rtu = kv.get("rtu").copied().unwrap_or(0) != 0;
     ctl.lock().unwrap().rtu = rtu;
-    let (channel, sess) = ClientSession::new(if rtu { Framing::RtuResponse } else { Framing::Tcp }, cap, initial, mt);
+    let (channel, mut sess) = ClientSession::new(if rtu { Framing::RtuResponse } else { Framing::Tcp }, cap, initial, mt);
+    if let Some(tx0) = kv.get("tx0") {
+        sess.set_next_tx_id(*tx0 as u16); // verification hook: lets a short script cross the 16-bit wrap
+    }
     let mut handles: Vec<Channel> = Vec::new();
     for _ in 1..nhandles {
         handles.push(channel.clone());
